@@ -506,7 +506,7 @@ func runRecvCase(msize uint32, dotu bool, setup [][]byte, stream []byte, segs []
 func modeRecv(tier string, args []string) {
 	nstreams := 10
 	if tier == "thorough" {
-		nstreams = 120
+		nstreams = 40
 	}
 	type job struct {
 		msize        uint32
